@@ -37,8 +37,8 @@ WORKLOADS = {
     'ufs': {
         'pre': [(8, 1, 40000), (9, 1, 2000), (10, 1, 30000)],
         'ops': [('store', 1, 1, 10000), ('store', 2, 1, 3000), ('store', 3, 1, 6000),
-                ('reload', 1, 2, 10000), ('purge', 2), ('adv', 2000),
-                ('store', 4, 1, 30000), ('adv', 3000), ('store', 2, 2, 3000), ('adv', 3000)],
+                ('reload', 1, 2, 10000), ('purge', 2),
+                ('store', 4, 1, 30000), ('store', 2, 2, 3000), ('adv', 2000)],
     },
 }
 # quick: 'before n' leaves the same files as 'after n-1' (the process is killed between the two mutations), so
@@ -110,10 +110,14 @@ def run_workload(cw, store, op_marks=None):
             r = True
         if r is None or cw.crashed():
             return i
-        # two (virtual) seconds pass between operations, so that entry timestamps (= rock slot versions) differ
-        cw.sq.advance(2000)
+        # one (virtual) second passes between operations, so that entry timestamps (= rock slot versions) differ and
+        # the periodic replacement event runs; the whole workload stays below the 15 s after which ufs starts its
+        # directory-cleaning event, whose unlinks would race with the (free-running) unlinkd helper
+        cw.quiesce()
+        cw.sq.advance(1000)
         if cw.crashed():
             return i
+        cw.quiesce()
         if op_marks is not None:
             op_marks.append(len(cs.read_mutlog(cw.mutlog)))
     return None
